@@ -165,3 +165,72 @@ Proof.
           -- apply Hl. apply Nat2Z.inj in H. rewrite H. apply in_map. exact He. }
   rewrite (G ksl [] Hnd) by (intros; simpl; tauto). reflexivity.
 Qed.
+
+(* the levels calc_omen_keyspace lists are pairwise different (the Counter it returns is a dict) *)
+Lemma ks_done_nodup T max_level maxks s l c :
+  NoDup (map fst (ks_done (calc_keyspace T max_level maxks s l c))).
+Proof.
+  unfold calc_keyspace.
+  assert (G : forall levels st, NoDup (map fst (ks_done st) ++ levels) ->
+            NoDup (map fst (ks_done (fold_left (ks_step_level T maxks s l) levels st)))).
+  { induction levels as [|x levels IH]; intros st H; simpl.
+    - rewrite app_nil_r in H. exact H.
+    - apply IH. unfold ks_step_level. destruct (ks_stopped st).
+      + apply NoDup_remove_1 in H. exact H.
+      + simpl. destruct (lv_touched _); simpl.
+        * rewrite map_app. simpl. rewrite <- app_assoc. exact H.
+        * apply NoDup_remove_1 in H. exact H. }
+  apply G. simpl. apply seq_NoDup.
+Qed.
+
+Section Prob.
+Variable repr : float -> ostr.
+Variable sc : ostr -> ostr -> pinfo -> fsys -> option fsys.
+
+(* C18_prob for the translated writer: the probabilities it writes to pcfg_omen_prob.txt for the
+   Counter calc_omen_keyspace returned are (training passwords the generator emits at the level / N)
+   / the number of strings of the level *)
+Theorem gen_prob_translated :
+  forall A T, ttab_of A = Some T -> wf_ttab T -> levels_le guesser_max_level T ->
+  forall c, reachable T c -> forall max_level maxks pws nvalid lc base pi fs fs',
+  let st := calc_keyspace T max_level maxks false false c in
+  nvalid <> 0 -> config_frame sc ->
+  (forall l, zcount lc (Z.of_nat l) = Z.of_nat (count_at (levels_count T pws) (Some l))) ->
+  py_save_omen_rules_to_disk repr sc A (zcounter_of (ks_done st)) lc (Z.of_nat nvalid) base pi fs = TOk (true, fs') ->
+  exists prob,
+    fs_get fs' (path_join (path_join base n_Omen) n_prob) = Some (zf_text repr (most_common_by PrimFloat.ltb (zprob_of prob))) /\
+    forall L p, In (L, p) prob -> (forall v, In (L, v) (ks_done st) -> (v <= maxks)%N) ->
+      let members := level_strings (gview T) (Z.of_nat L) in
+      p = PrimFloat.div
+            (PrimFloat.div (float_of_N (N.of_nat (length (filter (fun pw => existsb (ostr_eqb pw) members) pws))))
+                           (float_of_N (N.of_nat nvalid)))
+            (float_of_N (N.of_nat (length members))).
+Proof.
+  intros A T HT Hwf Hle c Hc max_level maxks pws nvalid lc base pi fs fs' st Hnv Hfr Hlc H.
+  rewrite (gen_save_omen_rules_eq repr sc A T _ _ _ _ _ _ HT) in H.
+  destruct (save_rules_files _ _ _ _ _ _ _ _ _ _ Hfr H) as (_ & _ & _ & _ & _ & _ & _ & prob & Hp & Hf).
+  rewrite (prob_counter_is_omen_prob (fun l => count_at (levels_count T pws) (Some l)) lc nvalid (ks_done st) Hnv
+             (ks_done_nodup _ _ _ _ _ _) Hlc) in Hp.
+  inversion Hp. subst prob. eexists. split; [exact Hf|].
+  intros L p Hin Hv. exact (ol_prob T Hwf Hle c Hc max_level maxks pws nvalid L p Hin Hv).
+Qed.
+
+End Prob.
+
+(* the hypotheses are satisfiable: a run of the translated trainer on three passwords (one with a
+   character outside the alphabet), with stand-ins for log / floor, and of the translated writer *)
+Definition demo_pws : list ostr := [[97; 98]; [98; 97; 98]; [97; 99]; [97]]%N.
+Definition demo_train : tres alookup := py_train (fun x => x) (fun _ => 2%Z) [97; 98]%N 2 4 demo_pws.
+
+Example gen_train_example :
+  exists A T, demo_train = TOk A /\ ttab_of A = Some T /\ wf_ttabb T = true /\ levels_leb guesser_max_level T = true /\
+    map te_key (tt_grammar T) = [[97]; [98]]%N /\ trainer_level T [97; 98]%N = Some 6 /\
+    trainer_level T [97; 99]%N = None /\ tt_ln T = [2; 2; 2; 2] /\
+    exists fs', py_save_omen_rules_to_disk (fun _ => [63]%N) (fun d f _ fs => Some (fs_put fs (path_join d f) []))
+                  A [(1, 1); (6, 2)]%Z [(6, 1); (-1, 1); (7, 1)]%Z 3 [100]%N (mk_pinfo [] 2 [97; 98]%N) [] = TOk (true, fs') /\
+                fs_get fs' (path_join (path_join [100]%N n_Omen) n_IP) = Some [50; 9; 97; 10; 50; 9; 98; 10]%N /\
+                fs_get fs' (path_join (path_join [100]%N n_Omen) n_pws_per_level) =
+                  Some [54; 9; 49; 10; 45; 49; 9; 49; 10; 55; 9; 49; 10]%N.
+Proof.
+  vm_compute. do 2 eexists. repeat split. eexists. repeat split.
+Qed.
